@@ -211,7 +211,8 @@ def transplant(k2, st, order=None):
 
 def injected(k):
     """Options carrying an injected sdkconfig default (not user state)."""
-    return [s.name for s in k.unique_defined_syms if getattr(s, "_default_value_injected", False)]
+    return [s.name for s in k.unique_defined_syms if getattr(s, "_default_value_injected", False)] + \
+        ["<choice %d>" % i for i in simproc.injected_choices(k)]
 
 
 # ---- history generation ------------------------------------------------------
